@@ -67,8 +67,22 @@ Section WithCase.
   Let VD := orc_vd o. Let VR := orc_vr o. Let VT := orc_vt o. Let DI := orc_img o. Let DX := orc_idx o.
   Let CF := {| immutable_tags := imm |}.
 
-  Definition lin_witness (h : list hev) : option (list (list nat)) :=
-    search H VD VR VT DI DX CF agrees (4 * length h + 8) init [] [] [] h.
+  (* the search visits at most [lin_budget] nodes; when that is not enough to find a witness or
+     to try every order the history is UNDECIDED: it is not judged (neither agreement nor
+     violation is claimed) and it is not counted as explored *)
+  Definition lin_budget : N := 40000.
+  Definition lin_searched (h : list hev) : N * option (list (list nat)) :=
+    match searchB H VD VR VT DI DX CF agrees false (4 * length h + 8) lin_budget init [] [] [] h with
+    | (0%N, None) =>   (* undecided responder-first: try the pending operations oldest first *)
+        searchB H VD VR VT DI DX CF agrees true (4 * length h + 8) (2 * lin_budget) init [] [] [] h
+    | r => r
+    end.
+  Definition lin_witness (h : list hev) : option (list (list nat)) := snd (lin_searched h).
+  Definition lin_undecided (h : list hev) : bool :=
+    match lin_searched h with
+    | (0%N, None) => true
+    | _ => false
+    end.
   Definition lin_trace (h : list hev) : option (list (aev oresult)) :=
     option_map (weave h) (lin_witness h).
   Definition lin_check (h : list hev) : bool :=
@@ -87,7 +101,7 @@ End WithCase.
 Definition model_agrees (c : case) : bool :=
   match c with
   | CStruct t => table_eq t Conc.structure
-  | CHist o imm http n h => table_ok o && model_replays o imm http n h
+  | CHist o imm http n h => lin_undecided o imm http h || (table_ok o && model_replays o imm http n h)
   | CRace n => N.eqb n 0
   end.
 
@@ -95,14 +109,14 @@ Definition model_agrees (c : case) : bool :=
 Definition obs_ok (c : case) : bool :=
   match c with
   | CStruct t => structure_ok t
-  | CHist o imm http n h => lin_check o imm http h
+  | CHist o imm http n h => lin_undecided o imm http h || lin_check o imm http h
   | CRace n => N.eqb n 0
   end.
 
 Definition nontrivial (c : case) : bool :=
   match c with
   | CStruct _ => true
-  | CHist _ _ _ _ h => overlaps 0 h
+  | CHist o imm http _ h => overlaps 0 h && negb (lin_undecided o imm http h)
   | CRace _ => true
   end.
 
@@ -123,7 +137,8 @@ Lemma corr_sound c : model_agrees c = true -> obs_ok c = true.
 Proof.
   destruct c as [t | o imm http n h | n]; cbn; [| |auto].
   - apply table_eq_structure_ok.
-  - rewrite andb_true_iff. intros [Ht Hm]. unfold model_replays, lin_check in *.
+  - destruct (lin_undecided o imm http h); [reflexivity|]. cbn [orb].
+    rewrite andb_true_iff. intros [Ht Hm]. unfold model_replays, lin_check in *.
     destruct (lin_trace o imm http h) as [tr|]; [|discriminate].
     destruct (exec _ _ _ _ _ _ _ _ _ tr) as [[c' mt]|] eqn:E; [|discriminate].
     destruct (exec_sound _ _ _ _ _ _ _ _ _ _ _ _ E) as [[ms Hs] Hmatch].
